@@ -413,6 +413,9 @@ func genPoint(r *hx.Rng, sc *scenario) *point {
 		if r.Chance(25) {
 			v = valPool[r.Intn(len(valPool))]
 		}
+		if r.Chance(4) {
+			v = oddVals[r.Intn(len(oddVals))]
+		}
 		p.tags = append(p.tags, influx.Tag{Key: t, Value: v})
 		if r.Chance(2) { // duplicate tag key: rejected by CheckDuplicateTag
 			p.tags = append(p.tags, influx.Tag{Key: t, Value: valPool[r.Intn(5)]})
@@ -612,7 +615,13 @@ func (g *gcond) String() string {
 	return s
 }
 
-func quote(s string) string { return "'" + s + "'" }
+// quote renders an InfluxQL string literal (single quote and backslash are escaped).
+func quote(s string) string {
+	return "'" + strings.NewReplacer(`\`, `\\`, `'`, `\'`).Replace(s) + "'"
+}
+
+// values that need escaping in a literal, or that look like key syntax in the hashed key
+var oddVals = []string{"it's", `back\slash`, "a=b,c=d", " lead", "x,host=a"}
 
 func genAtom(r *hx.Rng, sc *scenario) string {
 	tag := func() string {
@@ -625,11 +634,18 @@ func genAtom(r *hx.Rng, sc *scenario) string {
 		if r.Chance(80) {
 			return valPool[r.Intn(5)]
 		}
+		if r.Chance(25) {
+			return oddVals[r.Intn(len(oddVals))]
+		}
 		return valPool[r.Intn(len(valPool))]
 	}
 	switch k := r.Intn(100); {
-	case k < 52:
+	case k < 48:
 		return tag() + " = " + quote(val())
+	case k < 50: // IN / NOT IN over a tag: must not prune
+		return tag() + " IN (" + quote(val()) + ", " + quote(val()) + ")"
+	case k < 52:
+		return tag() + " NOT IN (" + quote(val()) + ")"
 	case k < 58:
 		return tag() + " != " + quote(val())
 	case k < 62:
@@ -1006,6 +1022,18 @@ func (sc *scenario) eval(e influxql.Expr, p *point) (bool, bool) {
 				return a && b, true
 			}
 			return a || b, true
+		}
+		if x.Op == influxql.IN || x.Op == influxql.NOTIN {
+			set, ok := x.RHS.(*influxql.SetLiteral)
+			if !ok {
+				return false, false
+			}
+			a, ok1 := sc.operand(x.LHS, p)
+			if !ok1 || a.kind != 's' {
+				return false, false
+			}
+			in := set.Vals[a.s]
+			return in == (x.Op == influxql.IN), true
 		}
 		// exact integer comparison for time
 		if isTimeRef(x.LHS) {
